@@ -782,11 +782,17 @@ func (p *parser) assignCallee(exp ast.Expression, calleeIdent *ast.Identifier) (
 	assignedCallee = nil
 	switch ss := exp.(type) {
 	case *ast.IndexExpression:
-		ff, ok := ss.Left.(*ast.Identifier)
-		if ok {
-			ff.OriginalCallee.Callee = calleeIdent
+		switch left := ss.Left.(type) {
+		case *ast.Identifier:
+			left.OriginalCallee.Callee = calleeIdent
 			assignedCallee = ss
-		} else {
+		case *ast.CallExpression, *ast.IndexExpression:
+			// x.a().b()[i] or x.a[i][j]: what is indexed is itself a
+			// call or an index selected from calleeIdent
+			if p.assignCallee(left, calleeIdent) != nil {
+				assignedCallee = ss
+			}
+		default:
 			msg := fmt.Sprintf("line %d: syntax error: invalid nested index access, expected an identifier %v", p.curToken.LineNumber, ss)
 			p.errors = append(p.errors, msg)
 		}
